@@ -357,7 +357,9 @@ func (s *SwapService) OnTxConfirmed(swapId string, txHex string, gotErr error) e
 
 	// First check if we got an error!
 	if gotErr != nil {
+		swap.mutex.Lock()
 		swap.Data.LastErr = err
+		swap.mutex.Unlock()
 		log.Infof("[%s]: got an error from the txwatcher, cancel swap: %v", swapId, err)
 		done, _ := swap.SendEvent(Event_ActionFailed, nil)
 		if done {
@@ -366,7 +368,11 @@ func (s *SwapService) OnTxConfirmed(swapId string, txHex string, gotErr error) e
 	}
 
 	// todo move to eventctx
+	// The swap data belongs to the state machine: events for this swap may be
+	// handled concurrently.
+	swap.mutex.Lock()
 	swap.Data.OpeningTxHex = txHex
+	swap.mutex.Unlock()
 	done, err := swap.SendEvent(Event_OnTxConfirmed, nil)
 	if err == ErrEventRejected {
 		return nil
@@ -973,6 +979,9 @@ func (s *SwapService) ResendLastMessage(swapId string) error {
 	if err != nil {
 		return err
 	}
+	// The action reads the swap data, which events for this swap change.
+	swap.mutex.Lock()
+	defer swap.mutex.Unlock()
 	action := &SendMessageAction{}
 	event := action.Execute(s.swapServices, swap.Data)
 	if event == Event_ActionFailed {
@@ -1081,7 +1090,9 @@ func (s *SwapService) createTimeoutCallback(swapId string) func() {
 
 		// Reset cancel func
 		if swap != nil && swap.Data != nil {
+			swap.mutex.Lock()
 			swap.Data.toCancel = nil
+			swap.mutex.Unlock()
 		}
 
 		done, err := swap.SendEvent(Event_OnTimeout, nil)
